@@ -136,7 +136,7 @@ PROPERTIES = {
         "steps": [seq("c10.*"), net("C10")],
         "technique": "deviation-bounded exploration with a send-gate monitor over the event stream (independent bytes-in-flight bookkeeping vs. the reported window)",
         "level_text": NET_NOTE + "Oracle SENDGATE: the monitor keeps its own bytes-in-flight sum from packet_sent / ack_range_received / packet_lost / key_space_discarded events; a congestion-controlled packet in normal transmission mode may only be sent while that sum is below the congestion window last reported, except one packet after a congestion event (RFC 9002 7.3.2); probes (loss-recovery mode) are exempt, MTU probes are not. CUBIC: two decreases of the reported congestion window violate the once-per-recovery-period rule when every packet declared lost at the second had been sent at or before the first (cc.second_reduction_in_recovery; decreases to the minimum window, next to an MTU change or after a migration are not judged). CUBIC and BBR scenarios, losses at every index.",
-        "level_note": "seqmc c10.cubic / c10.bbr: explicit-state BFS (depth 5 quick, 6-7 thorough) over send/ack/loss/ECN/MTU/discard/idle events on the real controllers at datagram sizes 1200/1500/9000 with the window-floor, overflow, in-flight, no-increase-on-signal, one-reduction-per-round-trip, persistent-congestion-minimum and no-growth-while-application-limited clauses. Congestion-controlled = carries an ack-eliciting frame (s2n-quic's definition).",
+        "level_note": "seqmc c10.cubic / c10.bbr: explicit-state BFS (depth 5 quick, 6-7 thorough) over send/ack/loss/ECN/MTU/discard/idle events on the real controllers at datagram sizes 1200/1500/9000 with the window-floor, overflow, in-flight, no-increase-on-signal, one-reduction-per-round-trip, persistent-congestion-minimum and no-growth-while-application-limited clauses. c10.persistent: the persistent-congestion period calculator against RFC 9002 7.6 on 2.06 M cases (6 packets on a 4-point time grid, every lost subset, every ack-eliciting assignment, first RTT sample absent / at every grid instant). Congestion-controlled = carries an ack-eliciting frame (s2n-quic's definition).",
         "design_ref": "DESIGN.md §3 C10",
         "assumptions": ["small-scope hypothesis", "event stream is faithful"],
     },
